@@ -111,12 +111,12 @@ OTHER = {"enum": [("replay::corpus::basic::Tup", "::ext::Tup"), ("replay::corpus
          "mybox": [(G + "MyBox<T>", "::ext::MB<T>"), (G + "MyBox", "::ext::MB0")],
          "calls": [("replay::corpus::calls::Call", "::ext::Call"), ("replay::corpus::basic::Tup", "::ext::T")]}
 
-def make_family(name, reg0, rule_list):
+def make_family(name, reg0, rule_list, how="subst"):
     ids = list(range(len(reg0)))
     def mk(eng): return regdsl._clone(reg0)
     def run(eng, reg):
         res = {"violations": []}
-        base = STD; sub = STD + Settings(["subst %s => %s" % (s, t) for s, t in rule_list])
+        base = STD; sub = STD + Settings(["%s %s => %s" % (how, s, t) for s, t in rule_list])
         ob, _, _ = generate(eng, regdsl._clone(reg), base, resolve=ids)
         os_, _, _ = generate(eng, regdsl._clone(reg), sub, resolve=ids)
         case = replay_gen_case(reg, sub, resolve=ids); cbase = replay_gen_case(reg, base, resolve=ids)
@@ -135,13 +135,15 @@ def make_family(name, reg0, rule_list):
         res["sample"] = {"rules": rule_list}
         return res
     def on_panic(eng, reg, msg):
-        sub = STD + Settings(["subst %s => %s" % (s, t) for s, t in rule_list])
+        sub = STD + Settings(["%s %s => %s" % (how, s, t) for s, t in rule_list])
         return {"outcome": "panic", "violations": [{"what": "panic: %s | rules %s" % (msg, rule_list), "case": replay_gen_case(reg0, sub), "cbase": None, "kind": "panic", "rules": rule_list}]}
     return Family(name, mk, run, target_prefixes=1, on_panic=on_panic)
 
 def families(eng, tier, seed):
     C = corpus(); fams = []
     for k, (s, t) in enumerate(RULES): fams.append(make_family("rule-generics-%d" % k, C["generics"], [(s, t)]))
+    for k in (0, 1, 7, 16): fams.append(make_family("rule-ifabsent-generics-%d" % k, C["generics"], [RULES[k]], how="subst_if_absent"))
+    for k in (2, 8, 17): fams.append(make_family("rule-extend-generics-%d" % k, C["generics"], [RULES[k]], how="subst_extend"))
     pairs = [(0, 7), (2, 8), (1, 16), (6, 10), (3, 15)]
     for a, b in pairs:
         if src_params(RULES[a][0])[0] != src_params(RULES[b][0])[0]: fams.append(make_family("rules-generics-%d+%d" % (a, b), C["generics"], [RULES[a], RULES[b]]))
